@@ -1,11 +1,20 @@
 // Unit c12_track -- property C12 "The transaction state cache reads back its own writes": the TRACK itself.
 // Real code under contract (bodies extracted verbatim):
-//   radix-engine/src/track/track.rs :: MappedTrack::{get_substate_from_db, get_tracked_substate, get_substate,
-//     set_substate, remove_substate, ...}
-//   radix-engine/src/track/state_updates.rs :: the per-substate machine the track calls into (same contracts as
-//     unit c12_tracked_substate), TrackedNode::new, TrackedPartition::{new, default}
-// Oracle (from the property statement): the track is the map overlay(db): a cell (node, partition, sort key) that is
-// tracked answers `cur` of its per-substate machine, an untracked cell answers what the database holds.
+//   radix-engine/src/track/track.rs
+//     MappedTrack::{new, get_substate_from_db, get_tracked_substate, finalize}
+//     <MappedTrack as CommitableSubstateStore>::{get_substate, set_substate, remove_substate, create_node, force_write,
+//       delete_partition, mark_as_transient, get_tracked_substate_info, scan_keys (tracked half; database half cut by R9)}
+//     TrackedSubstates::to_state_updates (loops + into_values().filter_map(..).collect(), closure body verbatim)
+//     the tracked-entry closure of scan_sorted_substates (sliced with @expr-after)
+//   radix-engine/src/track/state_updates.rs :: the per-substate machine the track calls into (same contracts as unit
+//     c12_tracked_substate), TrackedNode::new, TrackedPartition::{new, new_with_substates, default}
+//   radix-engine/src/kernel/call_frame.rs :: TransientSubstates::{new, mark_as_transient, is_transient}
+// Oracle (from the property statement): the track is the map overlay(db): a cell (node, partition, db sort key) that is
+// tracked answers `cur` of its per-substate machine, an untracked cell answers what the database holds; the state
+// updates produced at the end are exactly the written cells (plus the partition resets).
+// NOT here (see props.frag.json for the obstacles): list_entries_from_db, the database halves of scan_keys /
+// drain_substates, the tracked half of drain_substates, scan_sorted_substates beyond its closure, get_commit_info;
+// revert_non_force_write_changes is verified in unit c02_result_type.
 use vstd::prelude::*;
 verus! {
 /*@include shims/rt.rs @*/
@@ -14,6 +23,7 @@ verus! {
 pub mod env {
     use vstd::prelude::*;
     use super::unit::*;
+    use super::tm12::IndexMap;
 
     /// radix-engine-interface IndexedScryptoValue: opaque.  ASSUMED: `clone` is the identity on the abstract
     /// value; `len()` is a fixed function of the value and is at most isize::MAX (it is the length of the
@@ -30,6 +40,10 @@ pub mod env {
     pub uninterp spec fn decode(b: Seq<u8>) -> IndexedScryptoValue;
     impl IndexedScryptoValue {
         pub uninterp spec fn spec_len(&self) -> usize;
+        /// the byte string of the value (real code: `From<IndexedScryptoValue> for Vec<u8>`, reached through the blanket `Into`)
+        pub uninterp spec fn bytes(&self) -> Seq<u8>;
+        #[verifier::external_body]
+        pub fn into(self) -> (r: Vec<u8>) ensures r@ == self.bytes() { unimplemented!() }
         #[verifier::external_body]
         pub fn len(&self) -> (r: usize) ensures r == self.spec_len(), r <= isize::MAX as usize { unimplemented!() }
         /// does the value own nodes (`owned_nodes()` non-empty)
@@ -91,6 +105,65 @@ pub mod env {
             };
     }
 
+    /// radix-substate-store-interface :: trait SubstateKeyContent (only a type parameter of the scans' database half)
+    pub trait SubstateKeyContent {}
+
+
+    /// radix-common/src/state/state_updates.rs :: StateUpdates / NodeStateUpdates / PartitionStateUpdates, the builder
+    /// half used by TrackedSubstates::to_state_updates.  NOT under contract here: ASSUMED as documented there.
+    /// Abstract state of a partition's updates: `get(sk)` = what the update does to substate sk:
+    ///   None = untouched, Some(None) = absent afterwards, Some(Some(b)) = holds b afterwards
+    /// (`Delta { by_substate }`: only the listed substates are touched; `Batch(Reset { new_substate_values })`: the
+    /// partition is replaced, EVERY substate is determined).
+    #[verifier::external_body]
+    pub struct PartitionStateUpdates { _p: () }
+    impl PartitionStateUpdates {
+        pub uninterp spec fn get(&self, sk: SubstateKey) -> Option<Option<DbSubstateValue>>;
+        /// "Resets the partition to an empty state": `Batch(Reset { new_substate_values: {} })`
+        #[verifier::external_body]
+        pub fn delete(&mut self)
+            ensures forall|sk: SubstateKey| #[trigger] final(self).get(sk) == Some(None::<DbSubstateValue>)
+        { unimplemented!() }
+        /// "Applies the given updates on top of the current updates to the partition" (Delta: `by_substate.extend`;
+        /// Reset: Set inserts into / Delete removes from the new values).  The real parameter is
+        /// `impl IntoIterator<Item = (SubstateKey, DatabaseUpdate)>`; the track passes an IndexMap (distinct keys).
+        #[verifier::external_body]
+        pub fn mut_update_substates(&mut self, updates: IndexMap<SubstateKey, DatabaseUpdate>)
+            ensures forall|sk: SubstateKey| #[trigger] final(self).get(sk)
+                == (if updates@.contains_key(sk) { Some(upd_val(updates@[sk])) } else { old(self).get(sk) })
+        { unimplemented!() }
+    }
+    #[verifier::external_body]
+    pub struct NodeStateUpdates { _p: () }
+    impl NodeStateUpdates {
+        pub uninterp spec fn view(&self) -> Map<PartitionNumber, PartitionStateUpdates>;
+        /// "Starts a Partition-level update": `by_partition.entry(partition_num).or_default()`, the default being an
+        /// empty Delta (touches nothing)
+        #[verifier::external_body]
+        pub fn of_partition(&mut self, partition_num: PartitionNumber) -> (r: &mut PartitionStateUpdates)
+            ensures
+                old(self)@.contains_key(partition_num) ==> *r == old(self)@[partition_num],
+                !old(self)@.contains_key(partition_num) ==> (forall|sk: SubstateKey| #[trigger] r.get(sk) is None),
+                final(self)@ == old(self)@.insert(partition_num, *final(r)),
+        { unimplemented!() }
+    }
+    #[verifier::external_body]
+    pub struct StateUpdates { _p: () }
+    impl StateUpdates {
+        pub uninterp spec fn view(&self) -> Map<NodeId, NodeStateUpdates>;
+        #[verifier::external_body]
+        pub fn empty() -> (r: Self) ensures r@ == Map::<NodeId, NodeStateUpdates>::empty() { unimplemented!() }
+        /// "Starts a Node-level update": `by_node.entry(node_id.into()).or_insert_with(|| Delta { by_partition: {} })`.
+        /// The real parameter is `impl Into<NodeId>`; the track passes a NodeId.
+        #[verifier::external_body]
+        pub fn of_node(&mut self, node_id: NodeId) -> (r: &mut NodeStateUpdates)
+            ensures
+                old(self)@.contains_key(node_id) ==> *r == old(self)@[node_id],
+                !old(self)@.contains_key(node_id) ==> r@ == Map::<PartitionNumber, PartitionStateUpdates>::empty(),
+                final(self)@ == old(self)@.insert(node_id, *final(r)),
+        { unimplemented!() }
+    }
+
     pub assume_specification<T> [core::mem::replace] (dest: &mut T, src: T) -> (r: T)
         ensures r == *old(dest), *final(dest) == src;
 
@@ -108,6 +181,7 @@ pub mod unit {
     use super::rt::*;
     use super::tm12::*;
     use super::env::*;
+    broadcast use super::tm12::group_tm12;
 
     /*@item radix-engine/src/track/state_updates.rs :: struct RuntimeSubstate
     @derive
@@ -137,6 +211,9 @@ pub mod unit {
     @derive
     @*/
     /*@item radix-engine/src/track/interface.rs :: enum IOAccess
+    @derive
+    @*/
+    /*@item radix-common/src/state/state_updates.rs :: enum DatabaseUpdate
     @derive
     @*/
     /*@item radix-engine/src/track/interface.rs :: type NodeSubstates
@@ -670,6 +747,10 @@ pub mod unit {
         }
         if s[i] == t { assert(0 <= i < i + 1 && s[i] == t); }
     }
+    /// (n, p, sk) is a transient substate that is tracked and whose current value owns a node
+    pub open spec fn owning_transient<M: DatabaseKeyMapper>(a: Nodes, tr: TransientSubstates, n: NodeId, p: PartitionNumber, sk: SubstateKey) -> bool {
+        is_tr(tr, n, p, sk) && cell(a, n, p, M::sort_key(sk)) && (cur(val(a, n, p, M::sort_key(sk))) matches Some(v) && v.owns())
+    }
     /// ... and when every transient entry has been processed, `done` is the transient set
     pub open spec fn finalized<M: DatabaseKeyMapper>(a: Nodes, tr: TransientSubstates, b: Nodes) -> bool {
         &&& b.dom() =~= a.dom()
@@ -696,6 +777,234 @@ pub mod unit {
         }
         assert forall|n: NodeId, p: PartitionNumber, k: DbSortKey| #[trigger] cell(b, n, p, k) <==> cell(a, n, p, k) && !tr_key::<M>(tr, n, p, k) by {
             assert(done_key::<M>(done, n, p, k) <==> tr_key::<M>(tr, n, p, k));
+        }
+    }
+
+    // ---- key scan, the half that is answered from the track -------------------------------------------------
+    /// substate keys of the entries of `s` that currently hold a value, in order
+    pub open spec fn present_keys(s: Seq<(DbSortKey, TrackedSubstate)>) -> Seq<SubstateKey>
+        decreases s.len()
+    {
+        if s.len() == 0 { Seq::empty() } else {
+            let r = present_keys(s.drop_last());
+            if cur(s.last().1.substate_value) is Some { r.push(s.last().1.substate_key) } else { r }
+        }
+    }
+    /// scanning a longer prefix only appends
+    pub proof fn lemma_present_prefix(s: Seq<(DbSortKey, TrackedSubstate)>, j: int)
+        requires 0 <= j <= s.len()
+        ensures present_keys(s.take(j)).len() <= present_keys(s).len(),
+                present_keys(s.take(j)) =~= present_keys(s).take(present_keys(s.take(j)).len() as int)
+        decreases s.len() - j
+    {
+        if j == s.len() { assert(s.take(j) =~= s); }
+        else {
+            lemma_present_prefix(s, j + 1);
+            assert(s.take(j + 1).drop_last() =~= s.take(j));
+        }
+    }
+    /// what a key scan limited to `limit` answers from the track alone: the first `limit` present entries of the
+    /// tracked partition in iteration order
+    pub open spec fn scan_tracked(a: Nodes, n: NodeId, p: PartitionNumber, limit: int) -> Seq<SubstateKey> {
+        let all = present_keys(if parts(a, n).contains_key(p) { parts(a, n)[p].substates.ord_seq() } else { Seq::empty() });
+        if all.len() <= limit { all } else { all.take(limit) }
+    }
+    pub open spec fn present_count(a: Nodes, n: NodeId, p: PartitionNumber) -> int {
+        present_keys(if parts(a, n).contains_key(p) { parts(a, n)[p].substates.ord_seq() } else { Seq::empty() }).len() as int
+    }
+
+    // ---- the state updates produced at the end ---------------------------------------------------------------
+    /// the update a cell must contribute: nothing if not written, else Set(cur) / Delete
+    pub open spec fn emitted(t: TrackedSubstateValue) -> Option<Option<V>> { if !written(t) { None } else { Some(cur(t)) } }
+    pub open spec fn upd_val(u: DatabaseUpdate) -> Option<DbSubstateValue> { match u { DatabaseUpdate::Set(v) => Some(v), DatabaseUpdate::Delete => None } }
+    /// the answer of the per-substate mapping of to_state_updates for the tracked substate `t`
+    pub open spec fn upd_of(t: TrackedSubstate, r: Option<(SubstateKey, DatabaseUpdate)>) -> bool {
+        match emitted(t.substate_value) {
+            None => r is None,
+            Some(None) => r matches Some((k, u)) && k == t.substate_key && u is Delete,
+            Some(Some(v)) => r matches Some((k, DatabaseUpdate::Set(b))) && k == t.substate_key && b@ == v.bytes(),
+        }
+    }
+    /// what the produced updates do to substate (n, p, sk): None = untouched, Some(None) = absent, Some(Some(b)) = holds b
+    pub open spec fn su_get(su: StateUpdates, n: NodeId, p: PartitionNumber, sk: SubstateKey) -> Option<Option<DbSubstateValue>> {
+        if su@.contains_key(n) && su@[n]@.contains_key(p) { su@[n]@[p].get(sk) } else { None }
+    }
+    /// ... before any substate update is applied: a partition to delete is reset to empty, every other is untouched
+    pub open spec fn init_get(dp: Set<(NodeId, PartitionNumber)>, n: NodeId, p: PartitionNumber) -> Option<Option<DbSubstateValue>> {
+        if dp.contains((n, p)) { Some(None) } else { None }
+    }
+    pub open spec fn same_upd(x: Option<DbSubstateValue>, c: Option<V>) -> bool {
+        match (x, c) { (Some(b), Some(v)) => b@ == v.bytes(), (None, None) => true, _ => false }
+    }
+    /// some written cell of partition (n, p) carries the substate key sk
+    pub open spec fn written_key(a: Nodes, n: NodeId, p: PartitionNumber, sk: SubstateKey) -> bool {
+        exists|k: DbSortKey| cell(a, n, p, k) && written(val(a, n, p, k)) && #[trigger] subs(a, n, p)[k].substate_key == sk
+    }
+    /// C12 "the state changes produced at the end are exactly the overlaid differences", for partition (n, p):
+    /// every written cell sets / deletes its own substate key to its current value; every other substate key of the
+    /// partition is untouched -- or absent, if the partition is to be deleted
+    pub open spec fn part_done(a: Nodes, dp: Set<(NodeId, PartitionNumber)>, n: NodeId, p: PartitionNumber, su: StateUpdates) -> bool {
+        &&& forall|k: DbSortKey| #[trigger] cell(a, n, p, k) && written(val(a, n, p, k)) ==>
+                (su_get(su, n, p, subs(a, n, p)[k].substate_key) matches Some(x) && same_upd(x, cur(val(a, n, p, k))))
+        &&& forall|sk: SubstateKey| !written_key(a, n, p, sk) ==> #[trigger] su_get(su, n, p, sk) == init_get(dp, n, p)
+    }
+    pub open spec fn part_init(dp: Set<(NodeId, PartitionNumber)>, n: NodeId, p: PartitionNumber, su: StateUpdates) -> bool {
+        forall|sk: SubstateKey| #[trigger] su_get(su, n, p, sk) == init_get(dp, n, p)
+    }
+    /// ASSUMED of the track handed to to_state_updates (it has no key mapper at hand): two different cells of a
+    /// partition never carry the same substate key.  True of every track built through the API above: each cell's
+    /// substate key maps to the cell's sort key (see keys_wf / lemma_keys_wf_distinct).
+    pub open spec fn distinct_keys(a: Nodes) -> bool {
+        forall|n: NodeId, p: PartitionNumber, k1: DbSortKey, k2: DbSortKey| #[trigger] cell(a, n, p, k1) && #[trigger] cell(a, n, p, k2) && k1 != k2
+            ==> subs(a, n, p)[k1].substate_key != subs(a, n, p)[k2].substate_key
+    }
+    pub open spec fn keys_wf<M: DatabaseKeyMapper>(a: Nodes) -> bool {
+        forall|n: NodeId, p: PartitionNumber, k: DbSortKey| #[trigger] cell(a, n, p, k) ==> M::sort_key(subs(a, n, p)[k].substate_key) == k
+    }
+    pub proof fn lemma_keys_wf_distinct<M: DatabaseKeyMapper>(a: Nodes)
+        requires keys_wf::<M>(a) ensures distinct_keys(a)
+    {}
+    /// keys_wf is kept by every single-cell update that stores the substate key under its own sort key
+    pub proof fn lemma_upd_keys_wf<M: DatabaseKeyMapper>(a: Nodes, b: Nodes, n: NodeId, p: PartitionNumber, k: DbSortKey, sub: TrackedSubstate)
+        requires keys_wf::<M>(a), upd(a, b, n, p, k, sub), M::sort_key(sub.substate_key) == k
+        ensures keys_wf::<M>(b)
+    {
+        lemma_upd_cells(a, b, n, p, k, sub);
+        assert forall|n1: NodeId, p1: PartitionNumber, k1: DbSortKey| #[trigger] cell(b, n1, p1, k1) implies M::sort_key(subs(b, n1, p1)[k1].substate_key) == k1 by {
+            if !(n1 == n && p1 == p && k1 == k) { assert(cell(a, n1, p1, k1)); }
+        }
+    }
+
+    pub proof fn lemma_seq_to_map_push<K, V>(s: Seq<(K, V)>, b: (K, V))
+        ensures seq_to_map(s.push(b)) == seq_to_map(s).insert(b.0, b.1)
+    {
+        assert(s.push(b).drop_last() =~= s);
+        assert(s.push(b).last() == b);
+    }
+    /// what `into_values().filter_map(..).collect()` builds from a tracked partition whose cells carry distinct keys:
+    /// one update per written cell, under the cell's substate key, holding the cell's current value; nothing else
+    pub proof fn lemma_collect(sq: Seq<(DbSortKey, TrackedSubstate)>, outs: Seq<Option<(SubstateKey, DatabaseUpdate)>>, n: int)
+        requires
+            0 <= n <= sq.len(), outs.len() == sq.len(),
+            forall|i: int| 0 <= i < sq.len() ==> upd_of(sq[i].1, #[trigger] outs[i]),
+            forall|i: int, j: int| 0 <= i < j < sq.len() ==> sq[i].1.substate_key != sq[j].1.substate_key,
+        ensures
+            forall|i: int| 0 <= i < n && written(sq[i].1.substate_value) ==> seq_to_map(somes(outs.take(n))).contains_key((#[trigger] sq[i]).1.substate_key)
+                && same_upd(upd_val(seq_to_map(somes(outs.take(n)))[sq[i].1.substate_key]), cur(sq[i].1.substate_value)),
+            forall|sk: SubstateKey| #[trigger] seq_to_map(somes(outs.take(n))).contains_key(sk) ==> exists|i: int| 0 <= i < n && written(sq[i].1.substate_value) && (#[trigger] sq[i]).1.substate_key == sk,
+        decreases n
+    {
+        if n == 0 {
+            assert(outs.take(0) =~= Seq::empty());
+        } else {
+            lemma_collect(sq, outs, n - 1);
+            let pre = outs.take(n - 1);
+            let m0 = seq_to_map(somes(pre));
+            assert(outs.take(n).drop_last() =~= pre);
+            assert(outs.take(n).last() == outs[n - 1]);
+            assert(upd_of(sq[n - 1].1, outs[n - 1]));
+            let m1 = seq_to_map(somes(outs.take(n)));
+            match outs[n - 1] {
+                Some(b) => {
+                    lemma_seq_to_map_push(somes(pre), b);
+                    assert(m1 == m0.insert(b.0, b.1));
+                    assert(b.0 == sq[n - 1].1.substate_key);
+                    assert forall|i: int| 0 <= i < n && written(sq[i].1.substate_value) implies m1.contains_key((#[trigger] sq[i]).1.substate_key)
+                        && same_upd(upd_val(m1[sq[i].1.substate_key]), cur(sq[i].1.substate_value)) by {
+                        if i < n - 1 { assert(sq[i].1.substate_key != sq[n - 1].1.substate_key); }
+                    }
+                    assert forall|sk: SubstateKey| #[trigger] m1.contains_key(sk) implies exists|i: int| 0 <= i < n && written(sq[i].1.substate_value) && (#[trigger] sq[i]).1.substate_key == sk by {
+                        if sk == b.0 { assert(written(sq[n - 1].1.substate_value) && sq[n - 1].1.substate_key == sk); }
+                        else {
+                            assert(m0.contains_key(sk));
+                            let i = choose|i: int| 0 <= i < n - 1 && written(sq[i].1.substate_value) && (#[trigger] sq[i]).1.substate_key == sk;
+                            assert(0 <= i < n && written(sq[i].1.substate_value) && sq[i].1.substate_key == sk);
+                        }
+                    }
+                }
+                None => {
+                    assert(m1 == m0);
+                    assert forall|sk: SubstateKey| #[trigger] m1.contains_key(sk) implies exists|i: int| 0 <= i < n && written(sq[i].1.substate_value) && (#[trigger] sq[i]).1.substate_key == sk by {
+                        let i = choose|i: int| 0 <= i < n - 1 && written(sq[i].1.substate_value) && (#[trigger] sq[i]).1.substate_key == sk;
+                        assert(0 <= i < n && written(sq[i].1.substate_value) && sq[i].1.substate_key == sk);
+                    }
+                }
+            }
+        }
+    }
+    /// `ups` is what `into_values().filter_map(<per-substate mapping>).collect()` builds from the entries `sq`
+    pub open spec fn collected(sq: Seq<(DbSortKey, TrackedSubstate)>, ups: Map<SubstateKey, DatabaseUpdate>) -> bool {
+        exists|outs: Seq<Option<(SubstateKey, DatabaseUpdate)>>| outs.len() == sq.len()
+            && (forall|i: int| 0 <= i < sq.len() ==> upd_of(sq[i].1, #[trigger] outs[i]))
+            && ups == #[trigger] seq_to_map(somes(outs))
+    }
+    /// one partition's updates applied on top of the initial state give exactly the partition's diff
+    pub proof fn lemma_part_step(a: Nodes, dp: Set<(NodeId, PartitionNumber)>, n: NodeId, p: PartitionNumber, su: StateUpdates, su2: StateUpdates,
+                                 ups: Map<SubstateKey, DatabaseUpdate>)
+        requires
+            distinct_keys(a), parts(a, n).contains_key(p),
+            collected(parts(a, n)[p].substates.ord_seq(), ups),
+            part_init(dp, n, p, su),
+            forall|sk: SubstateKey| #[trigger] su_get(su2, n, p, sk) == (if ups.contains_key(sk) { Some(upd_val(ups[sk])) } else { su_get(su, n, p, sk) }),
+        ensures part_done(a, dp, n, p, su2)
+    {
+        let sq = parts(a, n)[p].substates.ord_seq();
+        let m = subs(a, n, p);
+        let outs = choose|outs: Seq<Option<(SubstateKey, DatabaseUpdate)>>| outs.len() == sq.len()
+            && (forall|i: int| 0 <= i < sq.len() ==> upd_of(sq[i].1, #[trigger] outs[i]))
+            && ups == #[trigger] seq_to_map(somes(outs));
+        assert(enumerates(sq, m));
+        assert forall|i: int, j: int| 0 <= i < j < sq.len() implies sq[i].1.substate_key != sq[j].1.substate_key by {
+            assert(m.contains_key(sq[i].0) && m.contains_key(sq[j].0));
+            assert(cell(a, n, p, sq[i].0) && cell(a, n, p, sq[j].0));
+            assert(m[sq[i].0] == sq[i].1 && m[sq[j].0] == sq[j].1);
+        }
+        lemma_collect(sq, outs, sq.len() as int);
+        assert(outs.take(sq.len() as int) =~= outs);
+        assert forall|k: DbSortKey| #[trigger] cell(a, n, p, k) && written(val(a, n, p, k)) implies
+                (su_get(su2, n, p, subs(a, n, p)[k].substate_key) matches Some(x) && same_upd(x, cur(val(a, n, p, k)))) by {
+            assert(has_key(sq, k));
+            let i = choose|i: int| 0 <= i < sq.len() && (#[trigger] sq[i]).0 == k;
+            assert(m[sq[i].0] == sq[i].1);
+            assert(ups.contains_key(sq[i].1.substate_key));
+        }
+        assert forall|sk: SubstateKey| !written_key(a, n, p, sk) implies #[trigger] su_get(su2, n, p, sk) == init_get(dp, n, p) by {
+            if ups.contains_key(sk) {
+                let i = choose|i: int| 0 <= i < sq.len() && written(sq[i].1.substate_value) && (#[trigger] sq[i]).1.substate_key == sk;
+                assert(m.contains_key(sq[i].0) && m[sq[i].0] == sq[i].1);
+                assert(cell(a, n, p, sq[i].0) && written(val(a, n, p, sq[i].0)) && subs(a, n, p)[sq[i].0].substate_key == sk);
+                assert(written_key(a, n, p, sk));
+            }
+            assert(su_get(su, n, p, sk) == init_get(dp, n, p));
+        }
+    }
+    pub open spec fn nsv(s: IndexSet<NodeId>) -> Set<NodeId> { s@ }
+    pub open spec fn puv(m: IndexMap<SubstateKey, DatabaseUpdate>) -> Map<SubstateKey, DatabaseUpdate> { m@ }
+    /// a partition without tracked substates contributes nothing
+    pub proof fn lemma_part_untracked(a: Nodes, dp: Set<(NodeId, PartitionNumber)>, n: NodeId, p: PartitionNumber, su: StateUpdates)
+        requires part_init(dp, n, p, su), !parts(a, n).contains_key(p)
+        ensures part_done(a, dp, n, p, su)
+    {}
+    /// updates to one partition do not show in any other
+    pub proof fn lemma_su_frame(a: Nodes, dp: Set<(NodeId, PartitionNumber)>, su: StateUpdates, su2: StateUpdates, n: NodeId, p: PartitionNumber)
+        requires forall|n1: NodeId, p1: PartitionNumber, sk: SubstateKey| !(n1 == n && p1 == p) ==> #[trigger] su_get(su2, n1, p1, sk) == su_get(su, n1, p1, sk)
+        ensures
+            forall|n1: NodeId, p1: PartitionNumber| !(n1 == n && p1 == p) && part_done(a, dp, n1, p1, su) ==> #[trigger] part_done(a, dp, n1, p1, su2),
+            forall|n1: NodeId, p1: PartitionNumber| !(n1 == n && p1 == p) && part_init(dp, n1, p1, su) ==> #[trigger] part_init(dp, n1, p1, su2),
+    {
+        assert forall|n1: NodeId, p1: PartitionNumber| !(n1 == n && p1 == p) && part_done(a, dp, n1, p1, su) implies #[trigger] part_done(a, dp, n1, p1, su2) by {
+            assert forall|k: DbSortKey| #[trigger] cell(a, n1, p1, k) && written(val(a, n1, p1, k)) implies
+                (su_get(su2, n1, p1, subs(a, n1, p1)[k].substate_key) matches Some(x) && same_upd(x, cur(val(a, n1, p1, k)))) by {
+                assert(su_get(su2, n1, p1, subs(a, n1, p1)[k].substate_key) == su_get(su, n1, p1, subs(a, n1, p1)[k].substate_key));
+            }
+            assert forall|sk: SubstateKey| !written_key(a, n1, p1, sk) implies #[trigger] su_get(su2, n1, p1, sk) == init_get(dp, n1, p1) by {
+                assert(su_get(su2, n1, p1, sk) == su_get(su, n1, p1, sk));
+            }
+        }
+        assert forall|n1: NodeId, p1: PartitionNumber| !(n1 == n && p1 == p) && part_init(dp, n1, p1, su) implies #[trigger] part_init(dp, n1, p1, su2) by {
+            assert forall|sk: SubstateKey| #[trigger] su_get(su2, n1, p1, sk) == init_get(dp, n1, p1) by {
+                assert(su_get(su2, n1, p1, sk) == su_get(su, n1, p1, sk));
+            }
         }
     }
 
@@ -985,24 +1294,22 @@ pub mod unit {
         /*@fn radix-engine/src/track/track.rs :: impl<'s, S: SubstateDatabase, M: DatabaseKeyMapper> MappedTrack<'s, S, M> :: fn finalize
         @sig
             ensures
-                match ret {
-                    // exactly the tracked substates that are marked transient are dropped (they must never reach the
-                    // database); everything else -- cells, node flags, partitions to delete -- is handed over unchanged
-                    Ok((ts, db)) => db == this.substate_db && ts.deleted_partitions == this.deleted_partitions
-                        && finalized::<M>(this.tracked_nodes@, this.transient_substates, ts.tracked_nodes@)
-                        && forall|n: NodeId, p: PartitionNumber, sk: SubstateKey| is_tr(this.transient_substates, n, p, sk) && #[trigger] cell(this.tracked_nodes@, n, p, M::sort_key(sk))
-                            ==> !(cur(val(this.tracked_nodes@, n, p, M::sort_key(sk))) matches Some(v) && v.owns()),
-                    // the only failure: a transient substate whose current value owns a node
-                    Err(e) => exists|n: NodeId, p: PartitionNumber, sk: SubstateKey| is_tr(this.transient_substates, n, p, sk) && #[trigger] cell(this.tracked_nodes@, n, p, M::sort_key(sk))
-                            && (cur(val(this.tracked_nodes@, n, p, M::sort_key(sk))) matches Some(v) && v.owns()),
-                }
-        @subst <<mut self>> => <<mut this: Self>> why: Verus does not support a `mut self` receiver; the receiver is renamed (`this`), turning the method into an associated function with the same body
+                // exactly the tracked substates that are marked transient are dropped (they must never reach the
+                // database); everything else -- cells, node flags, partitions to delete -- is handed over unchanged
+                ret matches Ok((ts, db)) ==> db == this0.substate_db && ts.deleted_partitions == this0.deleted_partitions,
+                ret matches Ok((ts, db)) ==> finalized::<M>(this0.tracked_nodes@, this0.transient_substates, ts.tracked_nodes@),
+                ret matches Ok((ts, db)) ==> forall|n: NodeId, p: PartitionNumber, sk: SubstateKey| is_tr(this0.transient_substates, n, p, sk) && #[trigger] cell(this0.tracked_nodes@, n, p, M::sort_key(sk))
+                            ==> !(cur(val(this0.tracked_nodes@, n, p, M::sort_key(sk))) matches Some(v) && v.owns()),
+                // the only failure: a transient substate whose current value owns a node
+                ret matches Err(e) ==> exists|n: NodeId, p: PartitionNumber, sk: SubstateKey| owning_transient::<M>(this0.tracked_nodes@, this0.transient_substates, n, p, sk),
+        @subst <<mut self>> => <<this0: Self>> why: Verus does not support a `mut self` receiver: the receiver becomes the by-value parameter `this0`, re-bound mutably as `this` by the first woven line (`let mut this = this0;`, the meaning of a `mut` binding); the method thus becomes an associated function with the same body, and its contract can name the initial value
         @subst <<self.>> => <<this.>> x5 why: same renaming of the receiver
         @entry
-            let ghost a0 = this.tracked_nodes@;
-            let ghost tr0 = this.transient_substates;
-            let ghost db0 = this.substate_db;
-            let ghost dp0 = this.deleted_partitions;
+            let mut this = this0;
+            let ghost a0 = this0.tracked_nodes@;
+            let ghost tr0 = this0.transient_substates;
+            let ghost db0 = this0.substate_db;
+            let ghost dp0 = this0.deleted_partitions;
             let ghost mut done: Set<Tr3> = Set::empty();
         @loop 1 iter it1
             invariant
@@ -1010,7 +1317,7 @@ pub mod unit {
                 dropped::<M>(a0, this.tracked_nodes@, done), none_owns::<M>(a0, done),
                 forall|n: NodeId, p: PartitionNumber, sk: SubstateKey| #[trigger] done.contains((n, p, sk)) ==> is_tr(tr0, n, p, sk),
                 forall|n: NodeId, p: PartitionNumber, sk: SubstateKey| #[trigger] done.contains((n, p, sk)) || !(is_tr(tr0, n, p, sk) && seen(it1.seq(), it1.index@, n)),
-                this.substate_db == db0, this.deleted_partitions == dp0,
+                this.substate_db == db0, this.deleted_partitions == dp0, a0 == this0.tracked_nodes@, tr0 == this0.transient_substates,
                 // exit fact
                 it1.index@ == it1.seq().len() ==> (forall|n: NodeId, p: PartitionNumber, sk: SubstateKey| #[trigger] done.contains((n, p, sk)) <==> is_tr(tr0, n, p, sk)),
         @before <<for (partition, substate_key) in transient_substates>> #1
@@ -1026,7 +1333,7 @@ pub mod unit {
                 forall|n: NodeId, p: PartitionNumber, sk: SubstateKey| #[trigger] done.contains((n, p, sk)) ==> is_tr(tr0, n, p, sk),
                 forall|n: NodeId, p: PartitionNumber, sk: SubstateKey| #[trigger] done.contains((n, p, sk)) || !(is_tr(tr0, n, p, sk) && seen(it1.seq(), it1.index@, n)),
                 forall|p: PartitionNumber, sk: SubstateKey| #[trigger] done.contains((node_id, p, sk)) || !seen_elem(it2.seq(), it2.index@, (p, sk)),
-                this.substate_db == db0, this.deleted_partitions == dp0,
+                this.substate_db == db0, this.deleted_partitions == dp0, a0 == this0.tracked_nodes@, tr0 == this0.transient_substates,
                 // exit fact
                 it2.index@ == it2.seq().len() ==> (forall|p: PartitionNumber, sk: SubstateKey| set0.contains((p, sk)) ==> #[trigger] done.contains((node_id, p, sk))),
         @closure 1 := |tracked_node: &mut TrackedNode| -> (r: Option<&mut TrackedPartition>) ensures match r { Some(x) => old(tracked_node).tracked_partitions@.contains_key(partition) && *x == old(tracked_node).tracked_partitions@[partition] && final(tracked_node).tracked_partitions@ == old(tracked_node).tracked_partitions@.insert(partition, *final(x)) && final(tracked_node).is_new == old(tracked_node).is_new, None => !old(tracked_node).tracked_partitions@.contains_key(partition) && *final(tracked_node) == *old(tracked_node) }
@@ -1042,6 +1349,8 @@ pub mod unit {
                 assert(cell(b, node_id, partition, M::sort_key(substate_key)));
                 assert(cell(a0, node_id, partition, M::sort_key(substate_key)));
                 assert(subs(b, node_id, partition)[M::sort_key(substate_key)] == subs(a0, node_id, partition)[M::sort_key(substate_key)]);
+                assert(owning_transient::<M>(a0, tr0, node_id, partition, substate_key));
+                assert(owning_transient::<M>(this0.tracked_nodes@, this0.transient_substates, node_id, partition, substate_key));
             }
         @after <<if let Some(tracked_partition)>> #1
             proof {
@@ -1079,9 +1388,253 @@ pub mod unit {
                 }
             }
         @before <<Ok((>> #1
-            proof { lemma_finalized::<M>(a0, this.tracked_nodes@, tr0, done); }
+            proof {
+                lemma_finalized::<M>(a0, this.tracked_nodes@, tr0, done);
+                assert forall|n: NodeId, p: PartitionNumber, sk: SubstateKey| is_tr(this0.transient_substates, n, p, sk) && #[trigger] cell(this0.tracked_nodes@, n, p, M::sort_key(sk))
+                    implies !(cur(val(this0.tracked_nodes@, n, p, M::sort_key(sk))) matches Some(v) && v.owns()) by { assert(done.contains((n, p, sk))); }
+            }
+        @*/
+
+        /// what @drop-tail cuts from scan_keys: the DATABASE half (list_entries_from_db = Box<dyn Iterator> over a local
+        /// struct, IterationCountedIter, a `for` loop with `continue`, the range_read update).  Opaque: nothing is
+        /// assumed about its result or about what it does to the track.
+        #[verifier::external_body]
+        fn scan_keys_db_tail<E>(&mut self, items: Vec<SubstateKey>) -> (r: Result<Vec<SubstateKey>, E>) { unimplemented!() }
+
+        // (loop_isolation(false): the parameter `limit: u32` is shadowed by the local `limit: usize`, so no loop invariant
+        // can name it; the loop body must see the pre-loop fact that the two are equal)
+        #[verifier::loop_isolation(false)]
+        /*@fn radix-engine/src/track/track.rs :: impl<'s, S: SubstateDatabase, M: DatabaseKeyMapper> CommitableSubstateStore for MappedTrack<'s, S, M> :: fn scan_keys
+        @sig
+            ensures
+                // C12, limited key scan, whenever the answer comes from the track alone (the node was created by this
+                // transaction, or the tracked partition already holds `limit` present entries): the first `limit`
+                // present tracked entries (distinct cells, each currently holding a value), as many as the limit
+                // allows; the track is not modified and no IO is made
+                node_is_new(old(self).tracked_nodes@, *node_id) || present_count(old(self).tracked_nodes@, *node_id, partition_number) >= limit
+                    ==> (ret matches Ok(v) && v@ == scan_tracked(old(self).tracked_nodes@, *node_id, partition_number, limit as int)
+                        && *final(self) == *old(self)),
+        @closure 1 := |tracked_node: &TrackedNode| -> (r: bool) ensures r == tracked_node.is_new
+        @closure 2 := |n: &TrackedNode| -> (r: Option<&TrackedPartition>) ensures r == (match lookup(n.tracked_partitions@, partition_number) { Some(x) => Some(&x), None => None })
+        @loop 1 iter it
+            invariant
+                *self == *old(self),
+                parts(self.tracked_nodes@, *node_id).contains_key(partition_number),
+                *tracked_partition == parts(self.tracked_nodes@, *node_id)[partition_number],
+                it.seq().len() == tracked_partition.substates.ord_seq().len(),
+                forall|i: int| 0 <= i < it.seq().len() ==> *(#[trigger] it.seq()[i]) == tracked_partition.substates.ord_seq()[i].1,
+                items@ == present_keys(tracked_partition.substates.ord_seq().take(it.index@ as int)),
+                items.len() <= limit,
+                // exit fact
+                it.index@ == it.seq().len() ==> items@ == present_keys(tracked_partition.substates.ord_seq()),
+        @before <<items.len()>> #1
+            proof {
+                let sq = tracked_partition.substates.ord_seq();
+                lemma_present_prefix(sq, it.index@ as int);
+                assert(sq.take(it.index@ + 1).drop_last() =~= sq.take(it.index@ as int));
+                assert(sq.take(it.index@ + 1).last() == sq[it.index@ as int]);
+                assert(sq.take(sq.len() as int) =~= sq);
+            }
+        @before <<return Ok(items);>> #1
+            proof {
+                let all = present_keys(tracked_partition.substates.ord_seq());
+                assert(items@ =~= all.take(limit as int));
+                if all.len() <= limit { assert(all.take(limit as int) =~= all); }
+                assert(items@ =~= scan_tracked(old(self).tracked_nodes@, *node_id, partition_number, limit as int));
+            }
+        @drop-tail <<if items.len() == limit || is_new>> #1 => return self.scan_keys_db_tail(items);
         @*/
     }
+
+    impl TrackedSubstates {
+        /*@fn radix-engine/src/track/track.rs :: impl TrackedSubstates :: fn to_state_updates
+        @sig
+            requires distinct_keys(self.tracked_nodes@)
+            ensures
+                // the nodes created by the transaction
+                forall|n: NodeId| ret.0@.contains(n) <==> node_is_new(self.tracked_nodes@, n),
+                // C12: the state changes are exactly the overlaid differences, partition by partition
+                forall|n: NodeId, p: PartitionNumber| #[trigger] part_done(self.tracked_nodes@, self.deleted_partitions@, n, p, ret.1),
+        @closure 1 := |r#tracked: TrackedSubstate| -> (r: Option<(SubstateKey, DatabaseUpdate)>) ensures upd_of(tracked, r)
+        @entry
+            let ghost a = self.tracked_nodes@;
+            let ghost dp0 = self.deleted_partitions@;
+        @loop 1 iter it0
+            invariant
+                enumerates_set(it0.seq(), dp0),
+                nsv(new_nodes) == Set::<NodeId>::empty(),
+                forall|n: NodeId, p: PartitionNumber, sk: SubstateKey| #[trigger] su_get(state_updates, n, p, sk)
+                    == (if seen_elem(it0.seq(), it0.index@, (n, p)) { Some(None::<DbSubstateValue>) } else { None }),
+                // exit fact
+                it0.index@ == it0.seq().len() ==> (forall|n: NodeId, p: PartitionNumber| #[trigger] part_init(dp0, n, p, state_updates)),
+        @before <<.delete()>> #1
+            let ghost su0 = state_updates;
+        @after <<.delete()>> #1
+            proof {
+                assert forall|n: NodeId, p: PartitionNumber, sk: SubstateKey| #[trigger] su_get(state_updates, n, p, sk)
+                    == (if seen_elem(it0.seq(), it0.index@ + 1, (n, p)) { Some(None::<DbSubstateValue>) } else { None }) by {
+                    lemma_seen_elem_step(it0.seq(), it0.index@, (n, p));
+                    assert(su_get(su0, n, p, sk) == (if seen_elem(it0.seq(), it0.index@, (n, p)) { Some(None::<DbSubstateValue>) } else { None }));
+                    if n == node_id && p == partition_num {
+                        assert(state_updates@.contains_key(n) && state_updates@[n]@.contains_key(p));
+                    } else if n == node_id {
+                        assert(state_updates@[n]@.contains_key(p) == (su0@.contains_key(n) && su0@[n]@.contains_key(p)));
+                    } else {
+                        assert(state_updates@.contains_key(n) == su0@.contains_key(n));
+                    }
+                }
+                assert(it0.index@ + 1 == it0.seq().len() ==> (forall|n: NodeId, p: PartitionNumber| #[trigger] part_init(dp0, n, p, state_updates))) by {
+                    if it0.index@ + 1 == it0.seq().len() {
+                        assert forall|n: NodeId, p: PartitionNumber| #[trigger] part_init(dp0, n, p, state_updates) by {
+                            if dp0.contains((n, p)) {
+                                let j = choose|j: int| 0 <= j < it0.seq().len() && it0.seq()[j] == (n, p);
+                                assert(seen_elem(it0.seq(), it0.index@ + 1, (n, p)));
+                            } else if seen_elem(it0.seq(), it0.index@ + 1, (n, p)) {
+                                let j = choose|j: int| 0 <= j < it0.index@ + 1 && #[trigger] it0.seq()[j] == (n, p);
+                                assert(dp0.contains(it0.seq()[j]));
+                            }
+                            assert forall|sk: SubstateKey| #[trigger] su_get(state_updates, n, p, sk) == init_get(dp0, n, p) by {}
+                        }
+                    }
+                }
+            }
+        @loop 2 iter it2
+            invariant
+                enumerates(it2.seq(), a), distinct_keys(a),
+                forall|n: NodeId| #[trigger] nsv(new_nodes).contains(n) <==> (seen(it2.seq(), it2.index@, n) && node_is_new(a, n)),
+                forall|n: NodeId, p: PartitionNumber| seen(it2.seq(), it2.index@, n) ==> #[trigger] part_done(a, dp0, n, p, state_updates),
+                forall|n: NodeId, p: PartitionNumber| !seen(it2.seq(), it2.index@, n) ==> #[trigger] part_init(dp0, n, p, state_updates),
+                // exit fact
+                it2.index@ == it2.seq().len() ==> (forall|n: NodeId| #[trigger] nsv(new_nodes).contains(n) <==> node_is_new(a, n))
+                    && (forall|n: NodeId, p: PartitionNumber| #[trigger] part_done(a, dp0, n, p, state_updates)),
+        @before <<tracked_node.is_new>> #1
+            let ghost nn0 = nsv(new_nodes);
+            proof { assert forall|n: NodeId| nn0.contains(n) <==> (seen(it2.seq(), it2.index@, n) && node_is_new(a, n)) by { assert(nsv(new_nodes).contains(n) == nn0.contains(n)); } }
+        @before <<for (partition_num, tracked_partition)>> #1
+            proof {
+                assert(a.contains_key(it2.seq()[it2.index@].0) && a[node_id] == tracked_node);
+                assert(!seen(it2.seq(), it2.index@, node_id)) by {
+                    if seen(it2.seq(), it2.index@, node_id) {
+                        let j = choose|j: int| 0 <= j < it2.index@ && (#[trigger] it2.seq()[j]).0 == node_id;
+                        assert(it2.seq()[j].0 != it2.seq()[it2.index@].0);
+                    }
+                }
+                assert(node_is_new(a, node_id) == tracked_node.is_new);
+                assert(nsv(new_nodes) == (if tracked_node.is_new { nn0.insert(node_id) } else { nn0 }));
+                assert forall|n: NodeId| #[trigger] nsv(new_nodes).contains(n) <==> ((seen(it2.seq(), it2.index@, n) || n == node_id) && node_is_new(a, n)) by {
+                    assert(nn0.contains(n) <==> (seen(it2.seq(), it2.index@, n) && node_is_new(a, n)));
+                }
+                assert forall|p: PartitionNumber| !a[node_id].tracked_partitions@.contains_key(p) implies #[trigger] part_done(a, dp0, node_id, p, state_updates) by {
+                    assert(part_init(dp0, node_id, p, state_updates));
+                    lemma_part_untracked(a, dp0, node_id, p, state_updates);
+                }
+            }
+        @loop 3 iter it3
+            invariant
+                enumerates(it2.seq(), a), distinct_keys(a),
+                0 <= it2.index@ < it2.seq().len(), it2.seq()[it2.index@].0 == node_id, a.contains_key(node_id), !seen(it2.seq(), it2.index@, node_id),
+                enumerates(it3.seq(), a[node_id].tracked_partitions@),
+                forall|n: NodeId| #[trigger] nsv(new_nodes).contains(n) <==> ((seen(it2.seq(), it2.index@, n) || n == node_id) && node_is_new(a, n)),
+                forall|n: NodeId, p: PartitionNumber| (seen(it2.seq(), it2.index@, n) || (n == node_id && seen(it3.seq(), it3.index@, p))) ==> #[trigger] part_done(a, dp0, n, p, state_updates),
+                forall|n: NodeId, p: PartitionNumber| !(seen(it2.seq(), it2.index@, n) || (n == node_id && seen(it3.seq(), it3.index@, p))) ==> #[trigger] part_init(dp0, n, p, state_updates),
+                // exit fact
+                it3.index@ == it3.seq().len() ==> (forall|p: PartitionNumber| #[trigger] part_done(a, dp0, node_id, p, state_updates)),
+        @before <<let partition_updates>> #1
+            let ghost su0 = state_updates;
+            let ghost tp0 = tracked_partition;
+            proof {
+                assert(a[node_id].tracked_partitions@.contains_key(it3.seq()[it3.index@].0) && a[node_id].tracked_partitions@[partition_num] == tp0);
+                assert(!seen(it3.seq(), it3.index@, partition_num)) by {
+                    if seen(it3.seq(), it3.index@, partition_num) {
+                        let j = choose|j: int| 0 <= j < it3.index@ && (#[trigger] it3.seq()[j]).0 == partition_num;
+                        assert(it3.seq()[j].0 != it3.seq()[it3.index@].0);
+                    }
+                }
+            }
+        @after <<let partition_updates>> #1
+            let ghost ups = puv(partition_updates);
+            proof { assert(collected(tp0.substates.ord_seq(), ups)); }
+        @after <<.mut_update_substates(partition_updates)>> #1
+            proof {
+                assert forall|sk: SubstateKey| #[trigger] su_get(state_updates, node_id, partition_num, sk)
+                    == (if ups.contains_key(sk) { Some(upd_val(ups[sk])) } else { su_get(su0, node_id, partition_num, sk) }) by {}
+                assert forall|n1: NodeId, p1: PartitionNumber, sk: SubstateKey| !(n1 == node_id && p1 == partition_num) implies
+                    #[trigger] su_get(state_updates, n1, p1, sk) == su_get(su0, n1, p1, sk) by {
+                    if n1 == node_id {
+                        assert(state_updates@[n1]@.contains_key(p1) == (su0@.contains_key(n1) && su0@[n1]@.contains_key(p1)));
+                    } else {
+                        assert(state_updates@.contains_key(n1) == su0@.contains_key(n1));
+                    }
+                }
+            }
+        @after <<partition_updates.is_empty()>> #1
+            proof {
+                assert forall|sk: SubstateKey| #[trigger] su_get(state_updates, node_id, partition_num, sk)
+                    == (if ups.contains_key(sk) { Some(upd_val(ups[sk])) } else { su_get(su0, node_id, partition_num, sk) }) by {}
+                assert forall|n1: NodeId, p1: PartitionNumber, sk: SubstateKey| !(n1 == node_id && p1 == partition_num) implies
+                    #[trigger] su_get(state_updates, n1, p1, sk) == su_get(su0, n1, p1, sk) by {}
+                assert(part_init(dp0, node_id, partition_num, su0));
+                lemma_part_step(a, dp0, node_id, partition_num, su0, state_updates, ups);
+                lemma_su_frame(a, dp0, su0, state_updates, node_id, partition_num);
+                assert forall|n: NodeId, p: PartitionNumber| (seen(it2.seq(), it2.index@, n) || (n == node_id && seen(it3.seq(), it3.index@ + 1, p)))
+                    implies #[trigger] part_done(a, dp0, n, p, state_updates) by {
+                    lemma_seen_step(it3.seq(), it3.index@, p);
+                    if !(n == node_id && p == partition_num) { assert(part_done(a, dp0, n, p, su0)); }
+                }
+                assert forall|n: NodeId, p: PartitionNumber| !(seen(it2.seq(), it2.index@, n) || (n == node_id && seen(it3.seq(), it3.index@ + 1, p)))
+                    implies #[trigger] part_init(dp0, n, p, state_updates) by {
+                    lemma_seen_step(it3.seq(), it3.index@, p);
+                    assert(part_init(dp0, n, p, su0));
+                }
+                assert(it3.index@ + 1 == it3.seq().len() ==> (forall|p: PartitionNumber| #[trigger] part_done(a, dp0, node_id, p, state_updates))) by {
+                    if it3.index@ + 1 == it3.seq().len() {
+                        assert forall|p: PartitionNumber| #[trigger] part_done(a, dp0, node_id, p, state_updates) by {
+                            lemma_seen_all(it3.seq(), a[node_id].tracked_partitions@, p);
+                            if !a[node_id].tracked_partitions@.contains_key(p) {
+                                assert(part_init(dp0, node_id, p, state_updates));
+                                lemma_part_untracked(a, dp0, node_id, p, state_updates);
+                            }
+                        }
+                    }
+                }
+            }
+        @after <<for (partition_num, tracked_partition)>> #1
+            proof {
+                assert forall|n: NodeId| #[trigger] nsv(new_nodes).contains(n) <==> (seen(it2.seq(), it2.index@ + 1, n) && node_is_new(a, n)) by { lemma_seen_step(it2.seq(), it2.index@, n); }
+                assert forall|n: NodeId, p: PartitionNumber| seen(it2.seq(), it2.index@ + 1, n) implies #[trigger] part_done(a, dp0, n, p, state_updates) by { lemma_seen_step(it2.seq(), it2.index@, n); }
+                assert forall|n: NodeId, p: PartitionNumber| !seen(it2.seq(), it2.index@ + 1, n) implies #[trigger] part_init(dp0, n, p, state_updates) by { lemma_seen_step(it2.seq(), it2.index@, n); }
+                assert(it2.index@ + 1 == it2.seq().len() ==> (forall|n: NodeId| #[trigger] nsv(new_nodes).contains(n) <==> node_is_new(a, n))
+                    && (forall|n: NodeId, p: PartitionNumber| #[trigger] part_done(a, dp0, n, p, state_updates))) by {
+                    if it2.index@ + 1 == it2.seq().len() {
+                        assert forall|n: NodeId| #[trigger] nsv(new_nodes).contains(n) <==> node_is_new(a, n) by { lemma_seen_all(it2.seq(), a, n); }
+                        assert forall|n: NodeId, p: PartitionNumber| #[trigger] part_done(a, dp0, n, p, state_updates) by {
+                            lemma_seen_all(it2.seq(), a, n);
+                            if !a.contains_key(n) {
+                                assert(part_init(dp0, n, p, state_updates));
+                                lemma_part_untracked(a, dp0, n, p, state_updates);
+                            }
+                        }
+                    }
+                }
+            }
+        @before <<(new_nodes, state_updates)>> #1
+            proof { assert forall|n: NodeId| new_nodes@.contains(n) <==> node_is_new(a, n) by { assert(nsv(new_nodes).contains(n) == new_nodes@.contains(n)); } }
+        @*/
+    }
+
+    /// R8 (closure lifting, done by hand because the extractor has no closure-to-fn lifting): in
+    /// scan_sorted_substates the tracked entries are fed to the merge iterator OverlayingResultIterator (whose `next`
+    /// is verified in unit c14_overlay_iterator) through
+    ///     tracked_partition.substates.iter().map(|(db_sort_key, tracked_substate)| <BODY>)
+    /// <BODY> is extracted verbatim from /repo (expr-after); the signature line is re-typed here.  Proved: the
+    /// overlay change handed to the merge for a tracked cell is exactly its current value (`Some((key, value))`
+    /// = upsert, `None` = the database entry with this sort key is hidden).  The rest of scan_sorted_substates is NOT
+    /// verified (see props.frag.json).
+    pub fn scan_sorted_substates_closure_2(db_sort_key: &DbSortKey, tracked_substate: &TrackedSubstate) -> (ret: (DbSortKey, Option<(SubstateKey, IndexedScryptoValue)>))
+        ensures
+            ret.0 == *db_sort_key,
+            ret.1 == (match cur(tracked_substate.substate_value) { Some(v) => Some((tracked_substate.substate_key, v)), None => None }),
+    /*@expr-after radix-engine/src/track/track.rs :: impl<'s, S: SubstateDatabase, M: DatabaseKeyMapper> CommitableSubstateStore for MappedTrack<'s, S, M> :: fn scan_sorted_substates :: <<.map(|(db_sort_key, tracked_substate)|>> @*/
 
     // ==================================================================================================
     // C12 read-your-writes, at the level of the Track API: compositions of the contracts above (hand-written
@@ -1165,6 +1718,74 @@ pub mod unit {
         let _ = t.set_substate(n, p, sk, v, io);
         let r = t.remove_substate(&n, p, &sk2, io);
         assert(r matches Ok(x) ==> x == Some(v0));
+    }
+
+    // ==================================================================================================
+    // C12 "the state changes produced at the end are exactly the overlaid differences": reading of the
+    // to_state_updates contract against a database (pure spec, no repo code)
+    // ==================================================================================================
+    /// the database content at (n, p, sk) after the produced updates have been applied (the documented meaning of
+    /// StateUpdates: untouched / deleted or reset away / set)
+    pub open spec fn db_after<M: DatabaseKeyMapper>(su: StateUpdates, db: Db, n: NodeId, p: PartitionNumber, sk: SubstateKey) -> Option<Seq<u8>> {
+        match su_get(su, n, p, sk) {
+            None => if db.contains_key((M::part_key(n, p), M::sort_key(sk))) { Some(db[(M::part_key(n, p), M::sort_key(sk))]) } else { None },
+            Some(None) => None,
+            Some(Some(b)) => Some(b@),
+        }
+    }
+    pub open spec fn opt_bytes(o: Option<V>) -> Option<Seq<u8>> { match o { Some(v) => Some(v.bytes()), None => None } }
+    /// For a track whose cells are filed under their own sort key (keys_wf: kept by every operation above): after the
+    /// updates are applied, a substate whose cell carries a write holds the cell's current value (or is absent if that
+    /// is None); any other substate is what the database held -- or absent, if its partition was deleted.
+    pub proof fn lemma_updates_are_the_overlay_diff<M: DatabaseKeyMapper>(a: Nodes, dp: Set<(NodeId, PartitionNumber)>, su: StateUpdates, db: Db,
+                                                                          n: NodeId, p: PartitionNumber, sk: SubstateKey)
+        requires keys_wf::<M>(a), part_done(a, dp, n, p, su)
+        ensures ({
+            let k = M::sort_key(sk);
+            db_after::<M>(su, db, n, p, sk) == (
+                if cell(a, n, p, k) && written(val(a, n, p, k)) && subs(a, n, p)[k].substate_key == sk { opt_bytes(cur(val(a, n, p, k))) }
+                else if dp.contains((n, p)) { None }
+                else if db.contains_key((M::part_key(n, p), k)) { Some(db[(M::part_key(n, p), k)]) } else { None })
+        })
+    {
+        let k = M::sort_key(sk);
+        if cell(a, n, p, k) && written(val(a, n, p, k)) && subs(a, n, p)[k].substate_key == sk {
+        } else {
+            if written_key(a, n, p, sk) {
+                let k2 = choose|k2: DbSortKey| cell(a, n, p, k2) && written(val(a, n, p, k2)) && #[trigger] subs(a, n, p)[k2].substate_key == sk;
+                assert(M::sort_key(subs(a, n, p)[k2].substate_key) == k2);
+                assert(false);
+            }
+        }
+    }
+
+    /// the point operations keep every cell filed under its own sort key
+    pub fn ops_keep_keys_wf<'s, S: SubstateDatabase, M: DatabaseKeyMapper, E, F: FnMut(IOAccess) -> Result<(), E>>(
+        t: &mut MappedTrack<'s, S, M>, n: NodeId, p: PartitionNumber, sk: SubstateKey, v: IndexedScryptoValue, io: &mut F)
+        requires forall|a: IOAccess| (*old(io)).requires((a,)), db_wf(old(t).substate_db.view()), keys_wf::<M>(old(t).tracked_nodes@),
+        ensures keys_wf::<M>(final(t).tracked_nodes@),
+    {
+        let ghost k = M::sort_key(sk);
+        let ghost a0 = t.tracked_nodes@;
+        let sk2 = sk.clone();
+        let _ = t.set_substate(n, p, sk, v, io);
+        proof { lemma_upd_keys_wf::<M>(a0, t.tracked_nodes@, n, p, k, subs(t.tracked_nodes@, n, p)[k]); }
+        let ghost a1 = t.tracked_nodes@;
+        let ghost t1 = *t;
+        let r = t.get_substate(&n, p, &sk2, io);
+        proof {
+            if r is Ok { lemma_upd_keys_wf::<M>(a1, t.tracked_nodes@, n, p, k, first_access::<S, M>(t1, n, p, sk2)); }
+            else if touched(a1, t.tracked_nodes@, n, p) { lemma_touched_cells(a1, t.tracked_nodes@, n, p); }
+            else { lemma_upd_keys_wf::<M>(a1, t.tracked_nodes@, n, p, k, first_access::<S, M>(t1, n, p, sk2)); }
+        }
+        let ghost a2 = t.tracked_nodes@;
+        let ghost t2 = *t;
+        let r2 = t.remove_substate(&n, p, &sk2, io);
+        proof {
+            if removed::<S, M>(t2, t.tracked_nodes@, n, p, sk2) { lemma_upd_keys_wf::<M>(a2, t.tracked_nodes@, n, p, k, subs(t.tracked_nodes@, n, p)[k]); }
+            else if touched(a2, t.tracked_nodes@, n, p) { lemma_touched_cells(a2, t.tracked_nodes@, n, p); }
+            else { lemma_upd_keys_wf::<M>(a2, t.tracked_nodes@, n, p, k, first_access::<S, M>(t2, n, p, sk2)); }
+        }
     }
 }
 } // verus!
